@@ -295,8 +295,48 @@ def align(base, cur):
     return out
 
 
-def transplant(base, annotated, cur, where):
+def reduce_groups(base, groups, mode):
+    """fallback modes for a function whose changed body no longer fits its in-body annotations:
+    contract_only: keep only what precedes the body's opening brace (attributes, requires / ensures / decreases);
+    external:      the same, plus #[verifier::external_body] (the function is then ASSUMED, and reported as such)"""
+    body_open = None
+    for k, l in enumerate(base):
+        if l.strip() == '{':
+            body_open = k
+            break
+    if body_open is None:
+        return groups
+    out = [g if k <= body_open else [] for k, g in enumerate(groups)]
+    if mode in ('external', 'stub'):
+        indent = re.match(r'\s*', base[0]).group(0)
+        if not any('verifier::external_body' in a for a in out[0]):
+            out[0] = out[0] + [indent + '#[verifier::external_body]']
+    return out
+
+
+def transplant(base, annotated, cur, where, mode=None):
     groups = embed(base, annotated, where)
+    if mode:
+        groups = reduce_groups(base, groups, mode)
+    if mode == 'stub':
+        # last resort: even the signature / body cannot be shown to the verifier (e.g. `mut self`): the function is emitted as an
+        # assumed stub - signature (binding modes dropped), contract, no body.  Nothing about this function is verified.
+        bo = next((k for k, l in enumerate(cur) if l.strip() == '{'), None)
+        bb = next((k for k, l in enumerate(base) if l.strip() == '{'), None)
+        if bo is not None and bb is not None:
+            out = []
+            for a in groups[0]:
+                out.append((a, False))
+            for k in range(bo):
+                out.append((re.sub(r'([(,]\s*)mut\s+(?=\w+\s*[:,)])', r'\1', cur[k]), True))
+                if k + 1 <= bb:
+                    pass
+            for g in range(1, bb + 1):
+                for a in groups[g]:
+                    out.append((a, False))
+            indent = re.match(r'\s*', cur[bo]).group(0)
+            out.append((indent + '{ unimplemented!() }', False))
+            return out
     m = align(base, cur)
     out = []          # (line, is_real)
     emitted = 0       # groups[0..emitted) already written
@@ -344,7 +384,7 @@ def load_base(unit):
     return json.load(open(p))
 
 
-def assemble(template_path, repo=None, learn=False):
+def assemble(template_path, repo=None, learn=False, modes=None):
     """-> dict(text=..., linemap=[...], regions=[...], unit=..., props=[...], notes=[...])
     linemap[k] (0-based assembled line k) = (region_label or None, is_real)"""
     repo = repo or REPO
@@ -381,7 +421,10 @@ def assemble(template_path, repo=None, learn=False):
             b_raw = base[r.key]
         rnotes = []
         b_lines, _ = prepare(b_raw, r, rnotes, strict=True)
-        if raw == b_raw:
+        mode = (modes or {}).get(r.label)
+        if mode:
+            rec['fallback_mode'] = mode
+        if raw == b_raw and not mode:
             # fast path, and the defining equation of the template: region == annotate(baseline)
             embed(b_lines, r.lines, where)   # still checked: template must contain the baseline
             res = None
@@ -395,9 +438,9 @@ def assemble(template_path, repo=None, learn=False):
                 else:
                     out_lines.append(line); linemap.append((r.label, False, None))
         else:
-            rec['changed_since_baseline'] = True
+            rec['changed_since_baseline'] = raw != b_raw
             c_lines, applied = prepare(raw, r, rnotes, strict=False)
-            res = transplant(b_lines, r.lines, c_lines, where)
+            res = transplant(b_lines, r.lines, c_lines, where, mode)
             for line, real in res:
                 out_lines.append(line); linemap.append((r.label, real, r.file if real else None))
         rec['rewrites_applied'] = sorted(set(applied))
